@@ -40,6 +40,14 @@ CHECKS = {
                 technique="symbolic execution of the compiled InitRenorm / RenormAbundance / GetElementAbund / GetHNuclei + SMT (non-linear real arithmetic): with the linear solve as the constraint A(ab) r = b, element totals after renormalisation equal reference ratio x hydrogen nuclei for all ab > 0",
                 text="For networks with multi-element molecules, ions, isotopologues/ortho-para species, ice species and dust grains: z3 shows for all positive abundances and all solutions r that every element total after RenormAbundance is b_i*H, that H is preserved when b_H=1, that electrons are untouched, that GetElementAbund is the count-weighted sum, that A(ab)*1 is the current ratio vector and every factor is 1 at r=1 (identity), and that no term divides by the literal 0.0.",
                 note="The LU/SUNLinSol solve is modelled by its defining equation; nonsingular A assumed for uniqueness; real arithmetic; elements are the atomic species present (generator's definition)."),
+    "C13": dict(engine=E1, cat="translation_validation", sec="6 C13",
+                technique="differential symbolic execution: compiled EvalRates/Fex of the project with modifiers vs. the plain project vs. the modifier text (exact arithmetic reader), SMT equivalence per reaction and species; API path and init->TOML->render path compared",
+                text="For rate-modifier sets (index present / absent / shared by two reactions / index 0 / negative and compound values / unindexed network re-indexed by joining order) z3 shows k[i] equals the modifier value exactly for the reactions carrying the key and equals the unmodified rate (guard included) for all others; for ODE-modifier sets (1-3 dependencies, repeated, signed/compound factors) ydot differs from the plain project by exactly factor x product on the target species; the project rendered through the configuration file is term-equivalent to the API rendering.",
+                note="Modifier expressions are arithmetic over parameters; one 6-reaction KIDA network and one unindexed API network; all parameters, abundances and rate values symbolic."),
+    "C20": dict(engine=E1, cat="translation_validation", sec="6 C20",
+                technique="differential symbolic execution of the project rendered by `naunet init`+`naunet render` (real CLI, real TOML) against the project rendered through Network(...) for the requested description: SMT equivalence of every rate coefficient and derivative, ground equality of macro tables and TOML fields",
+                text="For the bundled examples (minimal, primordial, empty; deuterium and cloud in thorough) and option-value classes (blanks around separators in lists and key=value tables, extra species, modifiers, binding energies and yields, non-default symbols) the configuration file records what was requested and the command-line rendering is equivalent for all inputs to the API rendering.",
+                note="Options are enumerated classes, not symbolic strings (the CrossHair harness on the option parser covers short symbolic strings); prompts are not exercised; `ism` needs an external file."),
     "C19": dict(engine=E1, cat="model_checking", sec="6 C19",
                 technique="bounded model checking of the compiled Solve/HandleError IR with a nondeterministic integrator stub (symbolic flags and partial times, merged states) + one SMT-discharged inductive step per recovery level (loop back edge cut); scripted-mock native replay",
                 text="Every fault sequence over the recovery ladder is covered by (base) Solve up to HandleError establishes the invariant, (step) from any invariant state one level either returns SUCCESS with exactly y0+dt, returns FAIL, or re-establishes the invariant, with every flag an arbitrary integer and every partial time an arbitrary real; plus end-to-end monolithic queries and concrete-flag/symbolic-time scripts through all five levels; odeint Observer and Solve are decided on their compiled IR.",
